@@ -55,7 +55,7 @@ Record Core (st : lstate) (es : estore) (T : list node) (Dr : list fev) (R : lis
   co_epoch : l_epoch st = 1;
   co_vinv : vinv nv (l_idx st);
   co_evs : evs (l_idx st) = E_of Dr;
-  co_es : forall e, In e Dr -> get_event es (eid (fe e)) = Some (ae e);
+  co_es : forall e, In e Dr -> (exists n, In n R /\ nd_id n = eid (fe e)) -> get_event es (eid (fe e)) = Some (ae e);
   co_sub : incl R T;
   co_nodup : NoDup (l_roots st);
   co_roots : forall r, In r (l_roots st) <-> exists n f, In n R /\ is_root_at node nd_fr nd_spf f n = true /\ r = slot n f }.
